@@ -26,6 +26,8 @@ def run(repo, run, tier):
     slope_cache(repo, run)
     containers(repo, run)
     balance_rule(repo, run, "C06.5", want="all")
+    from .c09 import removal_index
+    removal_index(repo, run, "C06.7")
 
 
 # ------------------------------------------------------------------------------------------------
@@ -197,8 +199,8 @@ class FreshClient(Client):
         return tt, ff
 
 
-def slope_cache(repo, run):
-    rid = run.rule("C06.3", "cache-key discipline of the reused end slope: RungeKuttaIntegrator.__call__ may take final_rhs as the new initial_rhs only under a "
+def slope_cache(repo, run, rule_id="C06.3"):
+    rid = run.rule(rule_id, "cache-key discipline of the reused end slope: RungeKuttaIntegrator.__call__ may take final_rhs as the new initial_rhs only under a "
                             "comparison with the time AND state it was computed at (keys stored wherever final_rhs is stored); the splitting "
                             "integrator's final_rhs is recomputed in every call", floor=2)
     for owner in (extract.RK, extract.SPLIT):
@@ -211,11 +213,12 @@ def slope_cache(repo, run):
     run.judged(rid, "splitting __call__: final_rhs at return is %s" % sorted({s for (s, n) in out.ret}), ok=not bad)
     if bad:
         node = [st for st in walk_no_nested(sc) if isinstance(st, ast.If) and "final_rhs" in src(st.test)]
-        run.report("C06.3", ITY, node[0] if node else sc, "the splitting integrator computes final_rhs only when it is None and never invalidates it: every piece after the first "
+        run.report(rule_id, ITY, node[0] if node else sc, "the splitting integrator computes final_rhs only when it is None and never invalidates it: every piece after the first "
                                                           "ends with the slope of the FIRST step", text="splitting final_rhs computed once")
 
 
 def _keyed_reuse(repo, run, rid, owner):
+    rule_id = rid
     call = repo.get(ITY, owner + ".__call__")
     run.analysed_fn(ITY, call)
     Q = [a.arg for a in call.args.args]
@@ -236,7 +239,7 @@ def _keyed_reuse(repo, run, rid, owner):
         ok = keyed_t and keyed_y
         run.judged(rid, "reuse `%s` guarded by: %s" % (src(st), test_src[:160]), ok=ok)
         if not ok:
-            run.report("C06.3", ITY, st, ("[%s] " % owner) + "the slope cached at the end of the previous step is reused as this step's start slope without checking that this step "
+            run.report(rule_id, ITY, st, ("[%s] " % owner) + "the slope cached at the end of the previous step is reused as this step's start slope without checking that this step "
                                          "starts at the time and state it was computed for (after a terminal event, a failure, a reset of the state by a "
                                          "callback, or a retried step the piece starts with a slope of another point)",
                        text="%sunkeyed reuse: initial_rhs = final_rhs guarded by `%s`" % ("" if owner == extract.RK else "[splitting] ", test_src[:120]))
@@ -255,7 +258,7 @@ def _keyed_reuse(repo, run, rid, owner):
             okk = okk and all(s2._parent is step for s2 in ft + fy)
             run.judged(rid, "cache keys stored in step(): %s" % [src(s2) for s2 in ft + fy], ok=okk)
             if not okk:
-                run.report("C06.3", ITY, step, "the keys (final_time, final_state) the reuse is checked against are not stored as (t0 + dTime, y0 + dState) on every "
+                run.report(rule_id, ITY, step, "the keys (final_time, final_state) the reuse is checked against are not stored as (t0 + dTime, y0 + dState) on every "
                                                "path of step() that stores final_rhs", text="cache keys of final_rhs")
 
 # ------------------------------------------------------------------------------------------------
